@@ -1054,10 +1054,17 @@ fn serialise_option<T>(option: DhcpOption, bytes: &[T], v: &mut Vec<u8>)
 where
     T: Serialise,
 {
-    option.serialise(v);
-    (bytes.len() as u8).serialise(v);
+    let mut value = Vec::new();
     for i in bytes.iter() {
-        i.serialise(v);
+        i.serialise(&mut value);
+    }
+    /* RFC3396: a value longer than 255 octets is split over several instances of the option. */
+    let mut chunks = value.chunks(255);
+    let first = chunks.next().unwrap_or(&[]);
+    for chunk in std::iter::once(first).chain(chunks) {
+        option.serialise(v);
+        (chunk.len() as u8).serialise(v);
+        v.extend_from_slice(chunk);
     }
 }
 
